@@ -138,7 +138,12 @@ def nd(ctx, lib, bin_, reach):
         elif c.get("thread_local"):
             ctx.violation("ND-3", (path, "thread_local"), "thread-local static in the library crate")
         elif not c.get("freeze", True):
-            if norm(c["ty"]).startswith("lazy_static::lazy::Lazy<"):
+            ty = norm(c["ty"])
+            payload = ty[len("lazy_static::lazy::Lazy<"):-1] if ty.startswith("lazy_static::lazy::Lazy<") else None
+            if payload is not None and re.search(r"\b(?:Mutex|RwLock|RefCell|Cell|UnsafeCell|OnceCell|OnceLock|LazyCell|LazyLock|Condvar|Atomic[A-Z]\w*|mpsc::\w+|ThreadLocal)\b", payload):
+                ctx.violation("ND-3", (path, "mutable global"), "lazily initialised static whose payload can be mutated after initialisation (%s): whatever build() stores in it is "
+                              "seen by every later build(), on every builder and thread, so the result depends on the call history of the process" % payload)
+            elif payload is not None:
                 lazy += 1
                 ctx.ok("ND-3", path, {"kind": "lazy_static cell; its initialiser is part of the build()-reachable set and is scanned by ND-2/ORD-1"})
             else:
@@ -332,7 +337,9 @@ def his1(ctx, lib, roles, canon, reach):
                     continue
                 for e in s["place"]["proj"]:
                     if e["k"] == "field" and norm(e.get("adt")) == common.CONFIG:
-                        writers.setdefault(fb.path, set()).add(e["name"])
+                        # a closure written inside a setter (e.g. passed to a private `configure` helper) belongs to that setter
+                        owner = fb.parent if fb.kind == "closure" and fb.parent else fb.path
+                        writers.setdefault(owner, set()).add(e["name"])
     for w, fields in sorted(writers.items()):
         if w in allowed:
             ctx.ok(rid, w + ":writes settings", {"fields": sorted(fields)})
@@ -458,5 +465,8 @@ def run(ctx):
     nd(ctx, lib, bin_, reach)
     canon = can1(ctx, lib)
     his1(ctx, lib, roles, canon, reach)
+    from . import memo
+    memo.rules(ctx)
+    memo.check(ctx, lib, reach)
     if ctx.tier == "thorough":
         witnesses(ctx)
